@@ -194,6 +194,7 @@ def classify(err, ranges):
     is_helper = bool(f and f.get("verdict_helper"))
     # Verdict sites (both levels): the statement allows "only the final accept/reject verdicts" to depend on the secret.
     decision = bool(f and any(a <= line <= b for a, b in (f.get("decision_ifs") or [])))
+    decision_raw = decision  # before the "final verdict" adjustment below
     # ... and a FINAL verdict: it may not precede a loop of the same function (a verdict taken before the loop that
     # processes the operands is an early exit: "fast path when the first bytes differ")
     if decision and f and (f.get("loops") or []):
@@ -205,7 +206,10 @@ def classify(err, ranges):
     if (is_cmp or is_setbytes or sfn == "sm2.TestPrivateKey" or is_helper) and not loop and decision and kind == "branch":
         # the condition of an `if` whose body always returns: an accept/reject verdict, outside every loop
         return scen, "allowed", dict(info, why="verdict: condition of an if that always returns, outside every loop")
-    if sfn in ("sm2/internal.(*SM2Point).bytes", "sm2/internal.(*SM2Point).GetAffineX") and kind == "branch" and f and f["first_if"][0] > 0 and f["first_if"][0] <= line <= f["first_if"][1]:
+    # (c) the "is it the point at infinity" verdict that OPENS a conversion out of the point domain: a method of SM2Point
+    # that returns bytes or an integer (not a point: Add/Double/Select stay branch-free), first statement an if that leaves
+    conversion = bool(f and f.get("recv") == "SM2Point" and f.get("results") and all(t in ("[]byte", "*big.Int") for t in f["results"]))
+    if (sfn in ("sm2/internal.(*SM2Point).bytes", "sm2/internal.(*SM2Point).GetAffineX") or conversion) and kind == "branch" and f and f["first_if"][0] > 0 and f["first_if"][0] <= line <= f["first_if"][1] and decision_raw:
         return scen, "allowed", dict(info, why="is-infinity verdict at the top of the conversion")
     snames = [short(n) for n in names]
     if fn.startswith("math/big.") and any(n.endswith(").ToBigInt") for n in snames) and any(n.endswith("(*SM2Point).GetAffineX") for n in snames) \
